@@ -136,11 +136,11 @@ CHECKS = {
         design="§3 C14"),
     "C09": dict(
         text="Partial. Lean theorems (any ordered field / dimension / force field): MH accept rule = detailed balance; leapfrog^n followed by a momentum "
-             "flip is an involution; rejection returns the input; the log acceptance ratios AS THE CODE COMPUTES THEM are in the model (malaLogAlpha, hmcLogAlpha): mala's is the log MH ratio of the Langevin kernel (normalisers cancel in every dimension), antisymmetric, hence pi*q*min(1,e^alpha) satisfies detailed balance; hmc's is the energy difference, negated on the reversed trajectory, zero for an energy-conserving run, hence detailed balance for exp(-H). MH ON GENERATIVE-FUNCTION PROGRAMS (finite-distribution semantics, Cond-free programs): the regenerate proposal has probability = product of the selected sites' masses under the new values (0 if an unselected address differs), its weight is the MH ratio in cross-multiplied form w * pi(x) * q(x->x') = pi(x') * q(x'->x), and pi(x) q(x->x') min(1,w) = pi(x') q(x'->x) min(1,w') - detailed balance of mh for the program's joint density; the model collapses to GF.regenerate for point masses (every program). Tie: one kernel step of mh / mala / hmc with scripted internal randomness "
+             "flip is an involution; rejection returns the input; the log acceptance ratios AS THE CODE COMPUTES THEM are in the model (malaLogAlpha, hmcLogAlpha): mala's is the log MH ratio of the Langevin kernel (normalisers cancel in every dimension), antisymmetric, hence pi*q*min(1,e^alpha) satisfies detailed balance; hmc's is the energy difference, negated on the reversed trajectory, zero for an energy-conserving run, hence detailed balance for exp(-H). MH ON GENERATIVE-FUNCTION PROGRAMS (finite-distribution semantics, Cond-free programs): the regenerate proposal has probability = product of the selected sites' masses under the new values (0 if an unselected address differs), its weight is the MH ratio in cross-multiplied form w * pi(x) * q(x->x') = pi(x') * q(x'->x), and pi(x) q(x->x') min(1,w) = pi(x') q(x'->x) min(1,w') - detailed balance of mh for the program's joint density; FROM DETAILED BALANCE TO INVARIANCE (Proofs/McmcInvariance.lean, every finite state set): the kernel of the mh form - accepted proposals off the diagonal, the rejection mass on the diagonal since a rejected move returns the input - has unit row sums, is reversible when its off-diagonal part is, and leaves pi invariant after any number n of steps (C09_rejection_kernel_invariant); instantiated for the textbook MH kernel with non-negative masses (stochastic matrix, C09_mh_kernel_invariant) and for mh on Cond-free GFI programs over any finite set of choice maps (C09_mh_gfi_invariant_partial); the model collapses to GF.regenerate for point masses (every program). Tie: one kernel step of mh / mala / hmc with scripted internal randomness "
              "(noise, momentum, accept uniform) on scalar, array-valued, Vmap-, Scan- and Cond-addressed targets incl. the mixture-indicator move: "
              "proposal, log acceptance ratio, accept decision, resulting trace, untouched unselected choices vs an independent JAX/scipy "
              "implementation of the MH rule for the stated proposals AND vs the Lean model run by the driver on the same state/noise (targets expressed as exact quadratic forms), with accept/reject bracketing of the implementation's decision around the model's log alpha; mh's proposal = seeded regenerate under the same key. Also the proposal LAW of mh on every target: from two different current traces under one key the proposed values of the selected addresses coincide (all their parents are selected).",
-        note=TB + "C09 (partial): leapfrog volume preservation and the Gaussian proposal density formula are cited mathematics; invariance of the posterior follows from detailed balance given C03/C04 weights; statistical invariance tests are not part of the quick tier.",
+        note=TB + "C09 (partial): leapfrog volume preservation and the Gaussian proposal density formula are cited mathematics; invariance of the posterior from detailed balance is PROVED for finite state sets (incl. the diagonal rejection mass) and cited for continuous ones; statistical invariance tests are not part of the quick tier.",
         technique="Lean 4 + Mathlib proof of the kernel cores + differential correspondence with scripted randomness",
         design="§3 C09"),
     "C10": dict(
